@@ -329,6 +329,16 @@ def stage_results(db, bam, profile, genome):
     return h.stage_baseline()
 
 
+def evidence_value(db, bam, profile, genome, held=None):
+    """what a freshly loaded sample holds: digest of the Coverage / Sample snapshot plus the read-phasing table read through attribute
+    lookup (so that state kept on the class or the module instead of the object is seen as well)"""
+    h = held or Held(db, bam, profile, genome)
+    ph = getattr(h.sample, "phases", None) or {}
+    frags = sorted(json.dumps(sorted((int(p), str(o)) for p, o in v.items())) for v in ph.values())
+    return {"evidence": h.he, "n_phases": len(ph), "phases": digest(frags),
+            "indels": sorted((int(k[0]), str(k[1]), [int(x) for x in v]) for k, v in getattr(h.sample, "_indel_sites", {}).items())}
+
+
 def worker_main(spec_path):
     common.quiet_aldy()
     spec = json.load(open(spec_path))
@@ -343,6 +353,8 @@ def worker_main(spec_path):
                     r = tie_witness()
                 elif j["kind"] == "stages":
                     r = stage_results(j["db"], j["bam"], j["profile"], j["genome"])
+                elif j["kind"] == "evidence":
+                    r = evidence_value(j["db"], j["bam"], j["profile"], j["genome"])
                 else:
                     r = {"crash": "unknown job"}
             except Exception:
@@ -584,6 +596,8 @@ def all_jobs(world, quick=True):
             jobs.append(world.job(["C"], smp, fmt))
     jobs.append({"kind": "stages", "db": world.db["A"], "bam": world.bam["s1"], "profile": world.profile, "genome": world.build})
     jobs.append({"kind": "tie"})
+    for smp in ("s1", "s2"):
+        jobs.append({"kind": "evidence", "sample": smp, "db": world.db["A"], "bam": world.bam[smp], "profile": world.profile, "genome": world.build})
     return jobs
 
 
@@ -681,8 +695,25 @@ def run_histories(chk, world, n_hist, baseline, d):
     rng = chk.rng
     pending = []      # (clause, desc, case, in-process value, baseline key)
     held = None
+    # fixed histories first: the same gene with two DIFFERENT samples one after the other (state kept per class / module instead of per
+    # object shows here: the second sample inherits what the first one left), both orders, and a repeat with another gene in between
+    fixed = [["genotype:A:s1:aldy", "genotype:A:s2:aldy", "genotype:A:s1:aldy"], ["genotype:A:s2:aldy", "genotype:A:s1:aldy"],
+             ["genotype:B:s1:simple", "genotype:B:s2:simple", "genotype:A:s1:simple", "genotype:B:s1:simple"]]
+    # two different samples of one gene loaded one after the other, both orders: what the second Sample holds must be what a fresh
+    # process loads for it
+    for order in (("s1", "s2"), ("s2", "s1"), ("s1", "s1")):
+        vals = []
+        for smp in order:
+            h = Held(world.db["A"], world.bam[smp], world.profile, world.build)
+            vals.append((smp, evidence_value(None, None, None, None, held=h)))
+        smp, val = vals[-1]
+        chk.case("history", {"world": world.seed, "ops": ["load:" + x for x in order]}, nontrivial=True, sample={"ops": ["load:" + x for x in order]})
+        pending.append(("after-other-genes" if order[0] != order[1] else "repeat-same-process",
+                        {"op": "load", "compare": "fresh-process load of the sample", "order": ",".join(order)},
+                        {"world_seed": world.seed, "history": ["load:" + x for x in order], "step": 1}, val,
+                        job_key({"kind": "evidence", "sample": smp, "db": "", "bam": "", "profile": "", "genome": world.build}), None))
     for hno in range(n_hist):
-        history = gen_history(rng, baseline)
+        history = fixed[hno] if hno < len(fixed) else gen_history(rng, baseline)
         if held is None or digest(snap_gene(held.gene)) != held.hg or digest(snap_evidence(held.cov)) != held.he:
             held = Held(world.db["A"], world.bam["s1"], world.profile, world.build)
         held.cn = held.major = held.minor = None
